@@ -30,6 +30,15 @@ func (c *ctx) thorough() bool { return c.tier == "thorough" }
 var checks = map[string]func(*ctx) error{}
 
 func main() {
+	if f := os.Getenv("VERIF_C19_DIGEST_FILE"); f != "" {
+		// helper mode of C19 stage (e): this process has done nothing yet; answer for one document and exit
+		b, err := os.ReadFile(f)
+		if err != nil {
+			os.Exit(4)
+		}
+		fmt.Print(parseDigest(b))
+		return
+	}
 	prop := flag.String("prop", "", "property id (C01..C19)")
 	tier := flag.String("tier", "quick", "quick|thorough")
 	seedS := flag.String("seed", "1", "PRNG seed")
